@@ -6,13 +6,16 @@
   only with the length limit where skipping succeeds.  Since every view is built from these two
   primitives plus the shared fixed-field reads, these are the facts behind "a view that decodes more
   never succeeds where a view that decodes less fails".
-  Open items, decided on the implementation by the `views` and `nameeq` oracles (tools/props.py:
-  views_oracle, nameeq_oracle) and tied to the model by correspondence:
-    * at_eq_seq   : sequential typed/raw data = marker-based random access on the same marker;
-    * iter_vs_hd  : MessageIterator's records = the cursor reader's records restricted to defined types/classes;
-    * nameref_eq  : NameRef::eq = equality of the decoded names (soundness of the same-offset shortcut).
+  `nameref_eq_decoded`: NameRef::eq — same-offset shortcut included — answers exactly what `==` answers on
+  the decoded names, whenever both can be decoded (helper lemmas: Rsdns/Lemmas/NameRef.lean).
+  Open items, decided on the implementation by the `views` oracle (tools/props.py: views_oracle) and tied to
+  the model by correspondence:
+    * at_eq_seq   : sequential typed/raw data = marker-based random access on the same marker
+                    (for typed data this is C10.at_closed_form + C04; not restated here);
+    * iter_vs_hd  : MessageIterator's records = the cursor reader's records restricted to defined types/classes.
 -/
 import Rsdns.Lemmas.Safety
+import Rsdns.Lemmas.NameRef
 
 set_option linter.unusedVariables false
 
@@ -143,5 +146,136 @@ theorem skip_of_read (k : NameKind) (msg : Bytes) (c c' : Cur) (text : Bytes) (h
   have : ¬ (o2.maxPos < c.pos) := by rw [hmp, ← hc']; omega
   simp only [this, if_false]
   exact ⟨_, by rw [hmp, h.2]⟩
+
+/-- **NameRef::eq.** When both names can be iterated without error, `NameRef::eq` answers whether their
+    label sequences are equal label by label, ASCII-case-insensitively — the same-offset shortcut
+    included. -/
+theorem nameRefEqLoop_spec (msg : Bytes) (a b : Labels) (ra rb : List LabelRef)
+    (ha : Yields msg a ra) (hb : Yields msg b rb) :
+    nameRefEqLoop msg msg a b = .ok (.ok (eqLabels (ra.map (·.bytes)) (rb.map (·.bytes)))) := by
+  induction ha generalizing b rb with
+  | done a hd =>
+    rw [nameRefEqLoop]
+    simp only [hd, dite_true]
+    rcases hb.next with ⟨rfl, l', hn⟩ | ⟨lab, s', rest, rfl, hn, _, _⟩
+    · simp [hn, eqLabels]
+    · simp [hn, eqLabels]
+  | none a s' hd hn =>
+    rw [nameRefEqLoop]
+    simp only [hd, Bool.false_eq_true, dite_false]
+    split
+    · rename_i h; rw [hn] at h; cases h
+    · rename_i h; rw [hn] at h; cases h
+    · rename_i h; rw [hn] at h; cases h
+    · rcases hb.next with ⟨rfl, l', hnb⟩ | ⟨lab, sb, rest, rfl, hnb, _, _⟩
+      · simp [hnb, eqLabels]
+      · simp [hnb, eqLabels]
+    · rename_i ml sa h; rw [hn] at h; cases h
+  | cons a ml sa rest hd hn hy ih =>
+    rw [nameRefEqLoop]
+    simp only [hd, Bool.false_eq_true, dite_false]
+    split
+    · rename_i h; rw [hn] at h; cases h
+    · rename_i h; rw [hn] at h; cases h
+    · rename_i h; rw [hn] at h; cases h
+    · rename_i h; rw [hn] at h; cases h
+    · rename_i ml' sa' h
+      rw [hn] at h
+      simp only [Res.ok.injEq, Prod.mk.injEq, Option.some.injEq] at h
+      obtain ⟨rfl, rfl⟩ := h
+      rcases hb.next with ⟨rfl, l', hnb⟩ | ⟨ol, sb, restb, rfl, hnb, hnb', hyb⟩
+      · simp [hnb, eqLabels]
+      · simp only [hnb]
+        by_cases hp : ml.pos = ol.pos
+        · obtain ⟨e1, e2⟩ := same_pos_same_rest hn hnb' hy hyb hp
+          simp only [hp, if_true, List.map_cons, e1, e2, eqLabels_refl]
+        · simp only [hp, if_false]
+          by_cases he : eqIgnoreCase ml.bytes ol.bytes = true
+          · simp only [he, Bool.not_true, Bool.false_eq_true, if_false, List.map_cons, eqLabels, Bool.true_and]
+            exact ih _ _ hyb
+          · have he' : eqIgnoreCase ml.bytes ol.bytes = false := by simpa using he
+            simp [he', eqLabels]
+
+/-- **label-wise equality is equality of the decoded names.**  For label sequences whose labels are
+    non-empty and dot-free (every label that passes `check_label_bytes` is), comparing label by label,
+    ASCII-case-insensitively, gives the same verdict as `==` on the decoded `Name`/`InlineName` values. -/
+theorem eqLabels_iff_nameEq (la lb : List Bytes) (ha : ∀ l ∈ la, NoDot l ∧ 0 < l.size)
+    (hb : ∀ l ∈ lb, NoDot l ∧ 0 < l.size) :
+    eqLabels la lb = nameEq (nameText la) (nameText lb) := by
+  have key := eqLabels_textOf la lb (fun l hl => (ha l hl).1) (fun l hl => (hb l hl).1)
+  have hiff : eqLabels la lb = true ↔ nameEq (nameText la) (nameText lb) = true := by
+    unfold nameEq
+    rw [eqIgnoreCase_iff]
+    cases la with
+    | nil =>
+      cases lb with
+      | nil => simp [eqLabels, nameText]
+      | cons b bs =>
+        have hb0 := hb b (by simp)
+        simp only [eqLabels, nameText, List.isEmpty_nil, if_true, List.isEmpty_cons, Bool.false_eq_true, if_false,
+          false_iff]
+        intro h
+        rw [textOf_toList] at h
+        have h' : lowerL ([] ++ 46 :: []) = lowerL (b.toList ++ 46 :: (textOf bs).toList) := h
+        rw [lower_split [] b.toList [] _ (by simp) hb0.1] at h'
+        have hlen := congrArg List.length h'.1
+        simp only [lowerL, List.length_map, List.length_nil, Array.length_toList] at hlen
+        omega
+    | cons a as =>
+      cases lb with
+      | nil =>
+        have ha0 := ha a (by simp)
+        simp only [eqLabels, nameText, List.isEmpty_nil, if_true, List.isEmpty_cons, Bool.false_eq_true, if_false,
+          false_iff]
+        intro h
+        rw [textOf_toList] at h
+        have h' : lowerL (a.toList ++ 46 :: (textOf as).toList) = lowerL ([] ++ 46 :: []) := h
+        rw [lower_split a.toList [] _ [] ha0.1 (by simp)] at h'
+        have hlen := congrArg List.length h'.1
+        simp only [lowerL, List.length_map, List.length_nil, Array.length_toList] at hlen
+        omega
+      | cons b bs =>
+        simp only [nameText, List.isEmpty_cons, Bool.false_eq_true, if_false]
+        exact key
+  cases h1 : eqLabels la lb <;> cases h2 : nameEq (nameText la) (nameText lb) <;> simp_all
+
+
+/-- **NameRef::eq, on cursors.** -/
+theorem nameref_eq (msg : Bytes) (ca cb : Cur) (ra rb : List LabelRef)
+    (ha : Yields msg (Labels.new ca) ra) (hb : Yields msg (Labels.new cb) rb) :
+    nameRefEq msg msg ca cb = .ok (.ok (eqLabels (ra.map (·.bytes)) (rb.map (·.bytes)))) :=
+  nameRefEqLoop_spec msg _ _ ra rb ha hb
+
+/-- **borrowed-name equality = equality of the decoded names.**  Whenever both names can be decoded
+    into owned names (of either type), `NameRef::eq` on the two borrowed names — with its same-offset
+    shortcut — answers exactly what `==` answers on the decoded values. -/
+theorem nameref_eq_decoded (k : NameKind) (msg : Bytes) (ca cb ca' cb' : Cur) (ta tb : Bytes)
+    (ha : readName k msg ca = .ok (ta, ca')) (hb : readName k msg cb = .ok (tb, cb')) :
+    nameRefEq msg msg ca cb = .ok (.ok (nameEq ta tb)) := by
+  have key : ∀ (c c' : Cur) (t : Bytes), readName k msg c = .ok (t, c') →
+      ∃ refs, Yields msg (Labels.new c) refs ∧ t = nameText (refs.map (·.bytes)) ∧
+        ∀ l ∈ refs.map (·.bytes), NoDot l ∧ 0 < l.size := by
+    intro c c' t h
+    unfold readName at h
+    split at h <;> try (simp at h; done)
+    rename_i o hw
+    simp only [Res.ok.injEq, Prod.mk.injEq] at h
+    obtain ⟨tail, hl, hck, hr, _⟩ := C03.walk_text _ _ _ _ _ _ _ hw
+    obtain ⟨refs, hy, hl2⟩ := yields_of_walk msg k _ #[] [] 0 o hw
+    simp only [List.reverse_nil, List.nil_append] at hl hl2
+    have htail : tail = refs.map (·.bytes) := by rw [← hl, hl2]
+    refine ⟨refs, hy, ?_, ?_⟩
+    · rw [← h.1, hr k rfl, Array.empty_append, ← htail]
+      cases tail with
+      | nil => simp [nameText, textOf, rootName, DOT]
+      | cons x xs =>
+        have hne : (textOf (x :: xs)).size ≠ 0 := by simp [textOf]
+        simp [nameText, hne]
+    · intro l hl'
+      rw [← htail] at hl'
+      exact checkLabel_nodot l (hck l hl')
+  obtain ⟨ra, hya, hta, hna⟩ := key ca ca' ta ha
+  obtain ⟨rb, hyb, htb, hnb⟩ := key cb cb' tb hb
+  rw [nameref_eq msg ca cb ra rb hya hyb, hta, htb, eqLabels_iff_nameEq _ _ hna hnb]
 
 end Rsdns.C08
